@@ -22,11 +22,13 @@ func init() {
 	c05 := &trace.Config{
 		Methods: []string{trace.MMix, trace.MInverse, trace.MNSortMConc, trace.MNConcMSort, trace.MNConcMConc, trace.MSelMix, trace.MSelInverse,
 			trace.MSelNSortMConc, trace.MSelNConcMSort, trace.MSelNConcMConc, trace.MPoolEM, trace.MPoolEMSel},
-		Clauses:  trace.Clauses(trace.ClBarrier, trace.ClWindow, trace.ClOnce, trace.ClOrder, trace.ClPolicy, trace.ClSeq, trace.ClLate),
+		// select: a rule outside the set the model is applied to ran (for the selected variants that set is the selection)
+		Clauses:  trace.Clauses(trace.ClBarrier, trace.ClWindow, trace.ClOnce, trace.ClOrder, trace.ClPolicy, trace.ClSeq, trace.ClLate, trace.ClSelect),
 		Gen:      trace.GenOpts{MinRules: 1, MaxRules: 10, FailProb: 0.2, RetProb: 0.2, WideSal: true},
 		Calls:    8,
 		PoolProb: 0.35,
 		Holds:    true,
+		DupNames: true,
 	}
 	fw.Families["C05"] = func(k *fw.Case) { trace.RunCase(k, c05) }
 
